@@ -491,17 +491,27 @@ def packing_per_file(prog: Program, rep: Report) -> None:
 
 def mask_construction(prog: Program, rep: Report, rule: str) -> None:
     """Mu interior = product of the two rho-masks adjacent along x; Mv along y."""
-    fi = prog.role_func("grid", "__init__")
+    from ..program import normalized
+
+    # locals that only carry an array to its attribute are read as the attribute (self.Mu), whatever they are called
+    fi = normalized(prog, prog.role_func("grid", "__init__"))
     stores = {"Mu": [], "Mv": []}
     shapes = {}
     alias = {}
+
+    def mask_name(e):
+        """Mu / Mv for the local or the attribute of that name"""
+        t = unparse(e)
+        t = t[5:] if t.startswith("self.") else t
+        return t if t in stores else None
+
     for node in walk_no_nested(fi.node):
         if isinstance(node, ast.Assign) and len(node.targets) == 1:
             t = node.targets[0]
-            if isinstance(t, ast.Name) and isinstance(node.value, ast.Call) and unparse(node.value.func) in ("np.zeros", "np.ones", "np.empty") and t.id in stores:
-                shapes[t.id] = node.value.args[0]
-            if isinstance(t, ast.Subscript) and isinstance(t.value, ast.Name) and t.value.id in stores:
-                stores[t.value.id].append(node)
+            if isinstance(t, (ast.Name, ast.Attribute)) and isinstance(node.value, ast.Call) and unparse(node.value.func) in ("np.zeros", "np.ones", "np.empty") and mask_name(t):
+                shapes[mask_name(t)] = node.value.args[0]
+            if isinstance(t, ast.Subscript) and mask_name(t.value):
+                stores[mask_name(t.value)].append(node)
             if isinstance(t, ast.Name) and unparse(node.value) == "self.M":
                 alias[t.id] = "M"
     def start(sl):
@@ -535,7 +545,7 @@ def mask_construction(prog: Program, rep: Report, rule: str) -> None:
             shifts = []
             good = True
             for e in terms:
-                if not (isinstance(e, ast.Subscript) and isinstance(e.value, ast.Name) and alias.get(e.value.id, e.value.id) == "M"):
+                if not (isinstance(e, ast.Subscript) and (unparse(e.value) == "self.M" or (isinstance(e.value, ast.Name) and alias.get(e.value.id, e.value.id) == "M"))):
                     good = False
                     break
                 esl = list(e.slice.elts) if isinstance(e.slice, ast.Tuple) else [e.slice]
@@ -565,7 +575,14 @@ def mask_construction(prog: Program, rep: Report, rule: str) -> None:
         rep.check(rule, fi.qual, f"{name}: interior and both edges filled", interior and edge_lo and edge_hi, what_bad=f"interior={interior} low edge={edge_lo} high edge={edge_hi}", what_ok="complete", loc=fi.loc())
         shp = shapes.get(name)
         want = "(self.jmax, self.imax + 1)" if name == "Mu" else "(self.jmax + 1, self.imax)"
-        rep.check(rule, fi.qual, f"{name} shape {unparse(shp) if shp is not None else '?'}", shp is not None and unparse(shp) == want, what_bad=f"must be {want} to match the {name[1]}-block read from the file", what_ok=want, loc=fi.loc())
+        from .c07 import _nf_of
+
+        def same_shape(a: ast.expr, want_text: str) -> bool:
+            # element-wise arithmetic equality (1 + self.imax is self.imax + 1)
+            w = ast.parse(want_text, mode="eval").body
+            return isinstance(a, (ast.Tuple, ast.List)) and len(a.elts) == len(w.elts) and all(_nf_of(x, {}) == _nf_of(y, {}) for x, y in zip(a.elts, w.elts))
+
+        rep.check(rule, fi.qual, f"{name} shape {unparse(shp) if shp is not None else '?'}", shp is not None and same_shape(shp, want), what_bad=f"must be {want} to match the {name[1]}-block read from the file", what_ok=want, loc=fi.loc())
 
 
 def run(prog: Program, rep: Report, tier: str) -> None:
